@@ -205,6 +205,27 @@ class Wire:
             return f'(backtrack {e.amount})'
         if isinstance(e, ex.Fail):
             return 'fail'
+        if isinstance(e, ex.OperatorTable):
+            def rows(x):
+                if x is None:
+                    return []
+                if isinstance(x, ex.Longest):
+                    return list(x.exprs)
+                return [x]
+            def tagged(row):
+                if not (isinstance(row, ex.Apply) and not row.apply_left and isinstance(row.expr2, ex.PythonExpression)):
+                    raise Unsupported('operator row shape')
+                m = re.fullmatch(r'lambda x: \(([\d, ]+), x\)', row.expr2.source_code)
+                if not m:
+                    raise Unsupported('operator tagger ' + row.expr2.source_code)
+                tag = [int(t) for t in m.group(1).split(',')]
+                return f'(tagged {self.expr(row.expr1)} ' + ' '.join(str(t) for t in tag) + ')'
+            operands = rows(e.operands)
+            return ('(optable (pre' + ''.join(' ' + tagged(r) for r in rows(e.prefixes)) + ')'
+                    f' (operand {self.expr(operands[0])})'
+                    ' (mixfix' + ''.join(' ' + self.expr(r) for r in operands[1:]) + ')'
+                    ' (post' + ''.join(' ' + tagged(r) for r in rows(e.postfixes)) + ')'
+                    ' (inf' + ''.join(' ' + tagged(r) for r in rows(e.infixes)) + '))')
         if isinstance(e, ex.PythonExpression):
             src = e.source_code.strip()
             if src == 'None':
